@@ -50,7 +50,7 @@ SPEC = dict(
               "files-random": 115, "files-inflated": 8, "files-valid": 15, "files-valid-loaded": 20,
               "inert-pairs": 12000, "inert-nonempty": 6000, "inert-zero-cmd-vectors": 3000, "inert-disjoint-vocabulary": 3000,
               "inert-below-floor": 3000, "active-pairs": 3500, "active-raised": 2000, "active-reordered": 500, "active-nonfinite-raised": 500},
-             {"active-repeated-answers-checked": 100000, "history-explicit-index-builds": 4000, "history-same-length-replacements": 1800, "history-feature-tried-through-a-wrapper-with-the-cache-off": 3000, "history-databases-with-copies-whose-rows-differ-in-the-last-bit": 1500, "history-pairs-feature-tried-without-files": 18000, "big-table-searches": 500, "history-reloads-of-embedding-files": 2000, "evaluations": 750000, "distinct_nontrivial": 10000,
+             {"active-repeated-answers-checked": 5000, "history-explicit-index-builds": 4000, "history-same-length-replacements": 1800, "history-feature-tried-through-a-wrapper-with-the-cache-off": 3000, "history-databases-with-copies-whose-rows-differ-in-the-last-bit": 1500, "history-pairs-feature-tried-without-files": 18000, "big-table-searches": 500, "history-reloads-of-embedding-files": 2000, "evaluations": 750000, "distinct_nontrivial": 10000,
               "cos-random": 100000, "cos-self": 30000, "cos-zero": 40000, "cos-mismatch": 50000, "cos-empty": 15000, "cos-extreme": 40000,
               "files-truncation": 12000, "files-huge-count": 200, "files-wrong-dim": 90, "files-wordlen": 30, "files-zero": 7, "files-stream": 11,
               "files-random": 1400, "files-inflated": 8, "files-valid": 15, "files-valid-loaded": 20,
